@@ -71,3 +71,88 @@ fn k_parse_repository_category_none() {
     kani::cover!(true, "reachable");
     core::mem::forget(gd);
 }
+
+//@use_common
+
+fn ngd_put(buf: &mut [u8], at: usize, v: u32) { buf[at..at + 4].copy_from_slice(&v.to_le_bytes()); }
+fn ngd_jamcrc(bytes: &[u8]) -> u32 {
+    // bit-serial JAMCRC, written independently of crc.rs
+    let mut c: u32 = 0xFFFF_FFFF;
+    for b in bytes { c ^= *b as u32; for _ in 0..8 { c = if c & 1 == 1 { (c >> 1) ^ 0xEDB8_8320 } else { c >> 1 }; } }
+    c
+}
+/// a well-formed index (kind 0: 16-byte entries of file hash, folder hash, locator, 0) or index2 (kind 1: 8-byte entries of full-path hash, locator)
+fn ngd_index(kind: u32, entries: &[(String, u8, u64)]) -> Vec<u8> {
+    let esz = if kind == 0 { 16 } else { 8 };
+    let mut buf = vec![0u8; 2048 + entries.len() * esz];
+    buf[0..8].copy_from_slice(b"SqPack\0\0");
+    ngd_put(&mut buf, 12, 1024); ngd_put(&mut buf, 16, 1); ngd_put(&mut buf, 20, 2); buf[32] = 0xFF; buf[33] = 0xFF;
+    ngd_put(&mut buf, 1024, 1024); ngd_put(&mut buf, 1028, 1); ngd_put(&mut buf, 1032, 2048); ngd_put(&mut buf, 1036, (entries.len() * esz) as u32);
+    ngd_put(&mut buf, 1320, kind);
+    for (i, (path, dat, offset)) in entries.iter().enumerate() {
+        let lower = path.to_ascii_lowercase();
+        let loc = (((*offset / 128) as u32) << 4) | ((*dat as u32) << 1);
+        let at = 2048 + i * esz;
+        if kind == 0 {
+            let (folder, file) = lower.rsplit_once('/').unwrap();
+            ngd_put(&mut buf, at, ngd_jamcrc(file.as_bytes())); ngd_put(&mut buf, at + 4, ngd_jamcrc(folder.as_bytes())); ngd_put(&mut buf, at + 8, loc);
+        } else {
+            ngd_put(&mut buf, at, ngd_jamcrc(lower.as_bytes())); ngd_put(&mut buf, at + 4, loc);
+        }
+    }
+    buf
+}
+fn ngd_mixed_case(p: &str, k: usize) -> String { p.chars().enumerate().map(|(i, c)| if (i + k) % 3 == 0 { c.to_ascii_uppercase() } else { c }).collect() }
+
+//@unit props=C01 label=B tier=quick native=1 fn=gamedata::GameData::{from_existing,exists,find_offset,find_entry,get_index_filenames,parse_repository_category},sqpack::index::SqPackIndex::{from_existing,find_entry,exists,calculate_hash} bound="by execution on temporary installations: base + ex1 + ex2 repositories, 5 categories, chunks 0, 1 and 10, every combination of .index only / .index2 only / both, 1..9 entries per index spread over dat0..dat7 with offsets up to 0x7_FFFF_FF80; every stored path queried in lower and two mixed cases, 12 absent paths, three query orders on one handle"
+//@desc a path exists and resolves exactly when an index of the repository and category it names (any chunk) holds its hash; the answer ignores letter case, is the data file and offset of the index entry (every entry of an index2 file included), and does not depend on earlier queries on the same handle
+#[test]
+fn native_gamedata_lookup() {
+    let mut cases = 0u64;
+    let offs: [u64; 9] = [0x80, 0x100, 0x0370_0B00, 0xFFFF_FF80, 0x1_0000_0000, 0x1_2345_6780, 0x7_FFFF_FF80, 0x2000, 0x4_0000_0080];
+    // (category prefix, category id, repository token or "", repository dir, expansion number)
+    let places: [(&str, u32, &str, &str, u32); 6] = [("exd", 0x0a, "", "ffxiv", 0), ("chara", 0x04, "", "ffxiv", 0), ("bg", 0x02, "ffxiv", "ffxiv", 0), ("bg", 0x02, "ex1", "ex1", 1), ("music", 0x0c, "ex2", "ex2", 2), ("common", 0x00, "", "ffxiv", 0)];
+    for layout in 0..3usize { // 0: .index only, 1: .index2 only, 2: both
+        let root = std::env::temp_dir().join(format!("physis-verif-c01-{}-{layout}", std::process::id()));
+        let _ = std::fs::remove_dir_all(&root);
+        let game = root.join("game");
+        for d in ["ffxiv", "ex1", "ex2"] { std::fs::create_dir_all(game.join("sqpack").join(d)).unwrap(); }
+        std::fs::write(game.join("ffxivgame.ver"), "2023.09.28.0000.0000").unwrap();
+        std::fs::write(game.join("sqpack/ex1/ex1.ver"), "2023.09.28.0000.0000").unwrap();
+        std::fs::write(game.join("sqpack/ex2/ex2.ver"), "2023.09.28.0000.0000").unwrap();
+        let mut stored: Vec<(String, u8, u64)> = vec![];
+        for (pi, (cat, cid, token, dir, exp)) in places.iter().enumerate() {
+            for (ci, chunk) in [0u32, 1, 10].iter().enumerate() {
+                let n = 1 + (pi * 3 + ci * 2 + layout) % 9;
+                let ents: Vec<(String, u8, u64)> = (0..n).map(|i| {
+                    let mid = if token.is_empty() { format!("dir{chunk}") } else { format!("{token}/zone{chunk}") };
+                    (format!("{cat}/{mid}/sub{}/file_{pi}_{ci}_{i}.dat", i % 3), ((i + pi + ci) % 8) as u8, offs[(i + pi * 2 + ci) % 9])
+                }).collect();
+                let name = format!("{cid:02x}{exp:02x}{chunk:02x}.win32");
+                if layout != 1 { std::fs::write(game.join("sqpack").join(dir).join(format!("{name}.index")), ngd_index(0, &ents)).unwrap(); }
+                if layout != 0 { std::fs::write(game.join("sqpack").join(dir).join(format!("{name}.index2")), ngd_index(1, &ents)).unwrap(); }
+                stored.extend(ents);
+            }
+        }
+        let absent: Vec<String> = (0..12).map(|k| format!("{}/dir0/sub0/absent_{k}.dat", ["exd", "chara", "bg/ex1", "music/ex2"][k % 4])).collect();
+        for order in 0..3usize {
+            let mut gd = GameData::from_existing(Platform::Win32, game.to_str().unwrap()).expect("installation opens");
+            assert_eq!(gd.repositories.len(), 3, "base + two expansions");
+            let idx: Vec<usize> = match order { 0 => (0..stored.len()).collect(), 1 => (0..stored.len()).rev().collect(), _ => (0..stored.len()).map(|i| (i * 7) % stored.len()).collect() };
+            if order == 2 { for a in absent.iter() { assert!(!gd.exists(a)); } }
+            for i in idx {
+                let (p, dat, off) = &stored[i];
+                for variant in [p.clone(), ngd_mixed_case(p, 0), ngd_mixed_case(p, 1)] {
+                    assert!(gd.exists(&variant), "{variant} is stored (layout {layout}, order {order})");
+                    assert_eq!(gd.find_offset(&variant), Some(*off), "offset of {variant} (layout {layout}, order {order})");
+                    let (e, _) = gd.find_entry(&variant).expect("entry");
+                    assert_eq!((e.data_file_id, e.offset), (*dat, *off), "data file and offset of {variant} (layout {layout})");
+                    cases += 1;
+                }
+            }
+            for a in absent.iter() { assert!(!gd.exists(a) && gd.find_offset(a).is_none(), "{a} is not stored"); cases += 1; }
+        }
+        let _ = std::fs::remove_dir_all(&root);
+    }
+    println!("NATIVE native_gamedata_lookup cases={cases}");
+}
